@@ -8,18 +8,21 @@ silently dropped; the list itself is fixed in git.
 import numpy as np
 
 
+from sklearn.linear_model import LinearRegression as _LinearRegression
+
+
+class ZeroDimLinear(_LinearRegression):
+    """LinearRegression whose single-row prediction is 0-d (numpy>=2.4 refuses
+    a[i] = array of shape (1,), which the reducers do; DESIGN.md 1.4a)."""
+
+    def predict(self, X):
+        r = super().predict(X)
+        if isinstance(r, np.ndarray) and r.shape == (1,):
+            return np.asarray(r[0])
+        return r
+
+
 def _lin():
-    from sklearn.linear_model import LinearRegression
-
-    class ZeroDimLinear(LinearRegression):
-        """LinearRegression whose single-row prediction is 0-d (numpy>=2.4 refuses
-        a[i] = array of shape (1,), which the reducers do; DESIGN.md 1.4a)."""
-
-        def predict(self, X):
-            r = super().predict(X)
-            if isinstance(r, np.ndarray) and r.shape == (1,):
-                return np.asarray(r[0])
-            return r
     return ZeroDimLinear()
 
 
